@@ -33,10 +33,10 @@ Judge(c, hist, S) ==
   LET cfg == c.cfg
   IN \E res \in {[C01 |-> IF Want("C01") THEN P!Failing(P!C01_Clauses(cfg, S)) ELSE {},
               C02 |-> IF Want("C02") THEN P!Failing(P!C02_Clauses(cfg, S)) ELSE {},
-              C03 |-> IF Want("C03") THEN P!Failing(P!C03_Clauses(cfg, S)) ELSE {},
-              C04 |-> IF Want("C04") THEN P!Failing(P!C04_Clauses(cfg, S)) ELSE {},
-              C05 |-> IF Want("C05") THEN P!Failing(P!C05_Clauses(cfg, S)) ELSE {},
-              C10 |-> IF Want("C10") THEN P!Failing(P!C10_Clauses(cfg, S)) ELSE {},
+              C03 |-> IF Want("C03") THEN P!Failing(P!C03_Clauses(cfg, S)) \cup (IF c.flowrun THEN {} ELSE {"flowRunConvenience"}) ELSE {},
+              C04 |-> IF Want("C04") THEN P!Failing(P!C04_Clauses(cfg, S)) \cup (IF c.flowrun THEN {} ELSE {"flowRunConvenience"}) ELSE {},
+              C05 |-> IF Want("C05") THEN P!Failing(P!C05_Clauses(cfg, S)) \cup (IF c.flowrun THEN {} ELSE {"flowRunConvenience"}) ELSE {},
+              C10 |-> IF Want("C10") THEN P!Failing(P!C10_Clauses(cfg, S)) \cup (IF c.flowrun THEN {} ELSE {"flowRunConvenience"}) ELSE {},
               C17 |-> IF Want("C17") THEN P!Failing(P!C17_Clauses(cfg, S)) ELSE {},
               C18 |-> IF Want("C18") THEN P!Failing(P!C18_Clauses(cfg, S)) ELSE {}]} :
      LET bad == {p \in DOMAIN res : res[p] # {}} IN
